@@ -66,6 +66,11 @@ def discharge(ob, extra_hyps=(), timeout_ms=10000, use_cvc5=True):
     elif r == sat:
         ob.result = 'refuted'
         ob.model = s.model()
+        # prefer a model with small keys / counters / parameters: cheaper and more readable native replay
+        r2, dt2, s2 = z3_check(hyps + small_bounds(hyps + [ob.goal], 16), ob.goal, 1500)
+        ob.time += dt2
+        if r2 == sat:
+            ob.model = s2.model()
     else:
         ob.result = 'unknown'
     return ob
